@@ -411,6 +411,59 @@ pub fn run(tier: &str) -> i32 {
         all.merge(pacc);
     }
 
+    // ---- more threads than a 16-bit counter can number: one token per thread, N threads one after the other
+    //      (thread-per-request), N beyond 2^16 (thorough: beyond 2^17); all nonces distinct
+    if !crate::report::profile().starts_with("cfg-") {
+        let n_threads: usize = if quick { 66_000 } else { 132_000 };
+        let mut tacc = Acc::default();
+        let p = protos[protos.len() - 1];
+        let mut seen: HashSet<Vec<u8>> = HashSet::with_capacity(n_threads);
+        let mut built = 0usize;
+        let batch = 64usize;
+        let mut done = 0usize;
+        while done < n_threads {
+            let k = batch.min(n_threads - done);
+            let got: Vec<Option<Vec<u8>>> = std::thread::scope(|s| {
+                let hs: Vec<_> = (0..k)
+                    .map(|_| {
+                        s.spawn(move || {
+                            adapter::freeze_default_clock();
+                            let key = domains::official_key();
+                            let ops = vec![BOp::Claim(ClaimSpec::auto("data", json!("same"))), BOp::Build];
+                            let ev = adapter::build_history(p, Layer::Generic, &key, &ops);
+                            match ev.last() {
+                                Some(BEvent::Built(Out::Ok(t))) => wire_nonce(p, t),
+                                _ => None,
+                            }
+                        })
+                    })
+                    .collect();
+                hs.into_iter().map(|h| h.join().ok().flatten()).collect()
+            });
+            for g in got.into_iter().flatten() {
+                built += 1;
+                seen.insert(g);
+            }
+            done += k;
+        }
+        tacc.executions += built as u64;
+        tacc.impl_calls += built as u64;
+        if built == 0 {
+            crate::report::machinery_error("the many-threads pass built no token");
+        }
+        if seen.len() != built {
+            tacc.violate(
+                format!("C10|{}|nonce-reuse-across-many-threads", p.name()),
+                format!("{} threads, one after the other in batches of {}, each built one token with identical claims under one key: only {} distinct nonces", built, batch, seen.len()),
+                json!({"nonce_case": NonceCase { proto: p, history: vec![HOp::NewGeneric, HOp::ClaimsSame, HOp::Build], script: vec![] }, "cross_process": true, "threads": built}),
+            );
+        } else {
+            tacc.bump("many-threads:distinct");
+        }
+        tacc.notes.insert("many_threads".into(), json!({"threads": built, "distinct_nonces": seen.len(), "protocol": p.name()}));
+        all.merge(tacc);
+    }
+
     // ---- a forked copy of a process that has already drawn: parent and copy must not hand out the same nonces
     {
         let mut facc = Acc::default();
